@@ -51,8 +51,8 @@ namespace {
 using vf::OpsCase;
 using vf::RawOp;
 
-constexpr int universe = 6; // keys 0..5
-constexpr int nkeys    = 8; // lookups are asked for -1..6
+constexpr int universe  = 6;  // keys 0..5 (capacities 1,3,4); the large capacities 8 and 17 of the random part use keys 0..19
+constexpr int max_nkeys = 22; // lookups are asked for -1..U
 
 // ------------------------------------------------------------------ comparators
 // run-time direction: the oracle's comparator for every configuration, and the *stateful* comparator of PART 12
@@ -190,16 +190,12 @@ auto pick(std::uint32_t raw, std::size_t room) -> std::size_t
 }
 
 // offset of an iterator (all iterators here are pointers) or a deterministic sentinel when it is not inside [b,e]
-auto off_impl(int const* b, int const* e, int const* it) -> long
+template <typename It>
+inline auto off(It b, It e, It it) -> long
 {
     if (it == nullptr) { return -1000; }                               // null iterator
     if (std::less<>{}(it, b) || std::less<>{}(e, it)) { return -999; } // outside the container
     return static_cast<long>(it - b);
-}
-template <typename It>
-inline auto off(It b, It e, It it) -> long
-{
-    return off_impl(b, e, it);
 }
 auto show_off(long o) -> std::string
 {
@@ -209,12 +205,12 @@ auto show_off(long o) -> std::string
 }
 
 struct KeySeq { // a short key sequence without the heap
-    int v[9]{};
+    int v[24]{};
     std::size_t n{0};
     bool overflow{false};
     auto push(int q) -> void
     {
-        if (n < 9) {
+        if (n < 24) {
             v[n++] = q;
         } else {
             overflow = true;
@@ -253,14 +249,20 @@ auto reversed(KeySeq const& s) -> KeySeq
     return r;
 }
 
-// keys of a range-style op: digit i of `a` in base 6, shifted by i*stride
-auto range_keys(std::uint32_t a, std::uint32_t stride, std::size_t len) -> std::vector<int>
+// keys of a range-style op: digit i of `a` in base 6, shifted by i*stride.  Large universe (u = 20): the two base-20
+// digits of `a` and the two of `a`/7 are repeated cyclically, i.e. an unsorted source full of duplicates
+auto range_keys(std::uint32_t a, std::uint32_t stride, std::size_t len, std::uint32_t u = 6U) -> std::vector<int>
 {
     std::vector<int> k;
-    auto d = a % 1296U;
-    for (std::size_t i = 0; i < len; ++i) {
-        k.push_back(static_cast<int>((d % 6U + i * stride) % 6U));
-        d /= 6U;
+    if (u == 6U) {
+        auto d = a % 1296U;
+        for (std::size_t i = 0; i < len; ++i) {
+            k.push_back(static_cast<int>((d % 6U + i * stride) % 6U));
+            d /= 6U;
+        }
+    } else {
+        std::uint32_t const dig[4] = {a % u, (a / u) % u, (a / 7U) % u, (a / 7U / u) % u};
+        for (std::size_t i = 0; i < len; ++i) { k.push_back(static_cast<int>((dig[i % 4] + (i / 4) * stride) % u)); }
     }
     return k;
 }
@@ -315,7 +317,8 @@ struct Obs {
     int comp_desc{-1}; // -1: stateless comparator
     int nkt{1};        // key types looked up: int, (long)
     bool has_equal_range{false};
-    long lk[2][nkeys][NFN]{};
+    int nk{8};         // keys looked up: -1 .. nk-2
+    long lk[2][max_nkeys][NFN]{};
 };
 
 // ------------------------------------------------------------------ ... and how it is judged against std::set (no templates)
@@ -336,7 +339,7 @@ auto judge(char const* name, Obs const& o, Model const& m, std::size_t cap) -> s
     if (!(o.rev_c == rseq)) { return fmt("%s: reverse iteration gives %s, expected %s", name, show_seq(o.rev_c).c_str(), show_seq(rseq).c_str()); }
     if (!(o.rev_nc == rseq)) { return fmt("%s: non-const reverse iteration gives %s, expected %s", name, show_seq(o.rev_nc).c_str(), show_seq(rseq).c_str()); }
     if (!(o.rev_cc == rseq)) { return fmt("%s: crbegin iteration gives %s, expected %s", name, show_seq(o.rev_cc).c_str(), show_seq(rseq).c_str()); }
-    for (int i = 0; i < nkeys; ++i) {
+    for (int i = 0; i < o.nk; ++i) {
         int const k   = i - 1;
         auto mo       = [&](Model::const_iterator it) { return static_cast<long>(std::distance(m.begin(), it)); };
         long const wf = mo(m.find(k)), wl = mo(m.lower_bound(k)), wu = mo(m.upper_bound(k)), wc = static_cast<long>(m.count(k));
@@ -378,7 +381,7 @@ inline auto look(Set& x, K const& k, long* out) -> void
 }
 
 // full = false: size + content only (the set an operation cannot have touched)
-template <std::size_t N, bool Flat, bool Transparent, bool Stateful, typename Set>
+template <std::size_t N, int U, bool Flat, bool Transparent, bool Stateful, typename Set>
 auto observe(Set& x, bool full, Obs& o) -> void
 {
     Set const& cx = x;
@@ -409,7 +412,8 @@ auto observe(Set& x, bool full, Obs& o) -> void
     if constexpr (Stateful) { o.comp_desc = kc.desc ? 1 : 0; }
     o.has_equal_range = Flat;
     o.nkt             = Transparent ? 2 : 1;
-    for (int i = 0; i < nkeys; ++i) {
+    o.nk              = U + 2;
+    for (int i = 0; i < U + 2; ++i) {
         int const k = i - 1;
         look<Flat>(x, k, o.lk[0][i]);
         if constexpr (Transparent) { look<Flat>(x, static_cast<long>(k), o.lk[1][i]); } // heterogeneous lookup
@@ -498,6 +502,8 @@ struct Runner {
     static constexpr bool stateful        = std::is_same_v<Comp, DirComp>;
     static constexpr bool desc            = descending_v<Comp>;
     static constexpr std::uint32_t ncodes = Flat ? NCODES_FLAT : NCODES_STATIC;
+    static constexpr std::uint32_t U      = Cap > 4 ? 20U : 6U; // key universe 0..U-1
+    static constexpr std::uint32_t RL     = Cap > 4 ? 9U : 5U;  // source ranges have 0..RL-1 elements
 
     // stateful comparator: A ascending, B descending; otherwise both sets order as Comp does
     static auto make_set(bool second) -> Set
@@ -515,7 +521,7 @@ struct Runner {
     static auto compare(char const* name, Set& x, Model const& m, bool full = true) -> std::string
     {
         Obs o;
-        observe<N, Flat, transparent, stateful>(x, full, o);
+        observe<N, static_cast<int>(U), Flat, transparent, stateful>(x, full, o);
         return judge(name, o, m, N);
     }
 
@@ -542,8 +548,8 @@ struct Runner {
             Set& y            = tb ? sw.a : sw.b;
             Model& mx         = tb ? mb : ma;
             Model& my         = tb ? ma : mb;
-            auto const stride = (op.c >> 1) % 6U;
-            int key           = static_cast<int>(op.a % 6U);
+            auto const stride = (op.c >> 1) % U;
+            int key           = static_cast<int>(op.a % U);
             auto code         = op.code % ncodes;
             // ---- re-map what is impossible / not askable in the current state
             if (mx.empty() && (code == ERASE_ITER || code == ERASE_CONST_ITER)) { code = INSERT_CREF; }
@@ -557,9 +563,11 @@ struct Runner {
 
             switch (code) {
             case INSERT_CREF: {
-                int const v = key;
-                auto r      = x.insert(v);
-                err         = judge_insert("insert(const&)", mx, key, N, flat, r.second, off(x.begin(), x.end(), r.first), fl);
+                int const v   = key;
+                int const* pv = &v;
+                if ((op.b & 1U) != 0 && mx.count(key) != 0) { pv = &x.begin()[std::distance(mx.begin(), mx.find(key))]; } // the argument aliases the element already stored
+                auto r = x.insert(*pv);
+                err    = judge_insert("insert(const&)", mx, key, N, flat, r.second, off(x.begin(), x.end(), r.first), fl);
                 break;
             }
             case INSERT_RREF: {
@@ -569,15 +577,18 @@ struct Runner {
                 break;
             }
             case EMPLACE: {
-                auto r = x.emplace(key);
+                int const v   = key;
+                int const* pv = &v;
+                if ((op.b & 1U) != 0 && mx.count(key) != 0) { pv = &x.begin()[std::distance(mx.begin(), mx.find(key))]; } // emplace(*it)
+                auto r = x.emplace(*pv);
                 err    = judge_insert("emplace", mx, key, N, flat, r.second, off(x.begin(), x.end(), r.first), fl);
                 break;
             }
             case INSERT_RANGE: {
-                bool const ra = ((op.b / 5U) % 2U) == 0;
-                auto keys     = fit_keys(mx, range_keys(op.a, stride, op.b % 5U), false, N, had_dup);
+                bool const ra = ((op.b / RL) % 2U) == 0;
+                auto keys     = fit_keys(mx, range_keys(op.a, stride, op.b % RL, U), false, N, had_dup);
                 fl.nt_dup |= had_dup;
-                int src[4] = {0, 0, 0, 0};
+                int src[8] = {0, 0, 0, 0, 0, 0, 0, 0};
                 std::copy(keys.begin(), keys.end(), src);
                 int const* f = src;
                 if (ra) {
@@ -593,7 +604,10 @@ struct Runner {
             case ERASE_KEY: {
                 bool const absent = mx.count(key) == 0;
                 fl.nt_erase_succ |= absent && mx.upper_bound(key) != mx.end();
-                auto n = x.erase(key);
+                int const v   = key;
+                int const* pv = &v;
+                if ((op.b & 1U) != 0 && !absent) { pv = &x.begin()[std::distance(mx.begin(), mx.find(key))]; } // erase(*it): the argument is the element being erased
+                auto n = x.erase(*pv);
                 auto e = mx.erase(key);
                 if (static_cast<std::size_t>(n) != e) { err = fmt("erase(key %d) returned %zu, std::set %zu", key, static_cast<std::size_t>(n), e); }
                 break;
@@ -696,10 +710,10 @@ struct Runner {
                 break;
             }
             case CTOR_RANGE: {
-                bool const ra = ((op.b / 5U) % 2U) == 0;
-                auto keys     = fit_keys(Model(mx.key_comp()), range_keys(op.a, stride, op.b % 5U), ra, N, had_dup);
+                bool const ra = ((op.b / RL) % 2U) == 0;
+                auto keys     = fit_keys(Model(mx.key_comp()), range_keys(op.a, stride, op.b % RL, U), ra, N, had_dup);
                 fl.nt_dup |= had_dup;
-                int src[4] = {0, 0, 0, 0};
+                int src[8] = {0, 0, 0, 0, 0, 0, 0, 0};
                 std::copy(keys.begin(), keys.end(), src);
                 int const* f = src;
                 using It     = vf::it::In<int const>;
@@ -773,7 +787,7 @@ struct Runner {
                     break;
                 }
                 case CTOR_CONTAINER: {
-                    auto keys = range_keys(op.a, stride, std::min<std::size_t>(op.b % 5U, N));
+                    auto keys = range_keys(op.a, stride, std::min<std::size_t>(op.b % RL, N), U);
                     fl.nt_dup |= has_dups(keys);
                     Cont c;
                     fill(c, keys);
@@ -932,12 +946,321 @@ struct MultiRunner {
     }
 };
 
+// ------------------------------------------------------------------ struct keys: equivalence is coarser than equality
+// Key {dept,id,tag}: the comparator orders by (dept,id) and ignores tag, operator== looks at all three fields, so there
+// are keys that are equivalent to a stored one without being equal to it.  The comparator is transparent and also
+// accepts Dept{d}, which compares on dept only and is NOT convertible to the key: one Dept is equivalent to several
+// stored keys, and std::set answers find / count / lower_bound / upper_bound / equal_range for it with the whole run.
+struct Rec {
+    int dept{0};
+    int id{0};
+    int tag{0};
+    friend auto operator<=>(Rec const&, Rec const&) = default;
+};
+struct Dept {
+    int d;
+};
+struct RecLess {
+    using is_transparent = void;
+    constexpr auto operator()(Rec const& a, Rec const& b) const -> bool { return a.dept != b.dept ? a.dept < b.dept : a.id < b.id; }
+    constexpr auto operator()(Rec const& a, Dept b) const -> bool { return a.dept < b.d; }
+    constexpr auto operator()(Dept a, Rec const& b) const -> bool { return a.d < b.dept; }
+};
+using RModel               = std::set<Rec, RecLess>;
+constexpr int rec_universe = 18; // 3 departments x 3 ids x 2 tags
+constexpr int ndepts       = 5;  // Dept -1 .. 3
+auto rec_of(std::uint32_t a) -> Rec { return Rec{static_cast<int>(a % 3U), static_cast<int>((a / 3U) % 3U), static_cast<int>((a / 9U) % 2U)}; }
+auto show_rec(Rec const& r) -> std::string { return fmt("%d.%d/%d", r.dept, r.id, r.tag); }
+auto show_recs(std::vector<Rec> const& v) -> std::string
+{
+    std::string o = "[";
+    for (std::size_t i = 0; i < v.size(); ++i) { o += (i != 0 ? " " : "") + show_rec(v[i]); }
+    return o + "]";
+}
+
+enum RCode : std::uint32_t { R_INSERT_CREF, R_INSERT_RREF, R_EMPLACE, R_ERASE_KEY, R_ERASE_ITER, R_INSERT_RANGE, R_CLEAR, R_INSERT_ALIAS, R_ERASE_ALIAS, R_OBSERVE, R_NCODES_STATIC, R_INSERT_HINT = R_NCODES_STATIC, R_NCODES_FLAT };
+char const* const rcode_names[] = {"insert(const&)", "insert(&&)", "emplace(dept,id,tag)", "erase(key)", "erase(iterator)", "insert(first,last)", "clear", "insert(*it)", "erase(*it)", "observe", "insert(hint,const&)"};
+
+struct RObs {
+    std::size_t size{0};
+    bool empty{false};
+    int full{-1};
+    bool content_read{false}, ascending{true}, has_equal_range{false};
+    std::vector<Rec> content;
+    long lk[rec_universe][NFN]{};
+    long dk[ndepts][NFN]{};
+};
+struct RExclude { // open known findings (see known_findings.json): the class is not asked while the tag is excluded
+    bool static_find_by_equality{false}, flat_erase_by_equality{false}, static_hetero_count{false}, flat_hetero_count{false};
+};
+auto rexclude() -> RExclude
+{
+    auto const& c = vf::ctx();
+    return RExclude{c.excluded("static_set.find_by_equality"), c.excluded("flat_set.erase_by_equality"), c.excluded("static_set.hetero_count"), c.excluded("flat_set.hetero_count")};
+}
+
+auto rjudge(char const* name, RObs const& o, RModel const& m, std::size_t cap, bool flat, bool& hetero_multi) -> std::string
+{
+    auto const ex = rexclude();
+    std::vector<Rec> const seq(m.begin(), m.end());
+    if (o.size != m.size()) { return fmt("%s: size %zu%s%s, std::set has %zu %s", name, o.size, o.content_read ? " content " : "", o.content_read ? show_recs(o.content).c_str() : "", m.size(), show_recs(seq).c_str()); }
+    if (o.empty != m.empty()) { return fmt("%s: empty() wrong", name); }
+    if (o.full != -1 && (o.full != 0) != (m.size() == cap)) { return fmt("%s: full() wrong", name); }
+    if (!o.content_read) { return fmt("%s: end()-begin() != size()", name); }
+    if (o.content != seq) { return fmt("%s: iterates %s, std::set iterates %s", name, show_recs(o.content).c_str(), show_recs(seq).c_str()); }
+    if (!o.ascending) { return fmt("%s: not strictly ascending under its own key_comp(): %s", name, show_recs(o.content).c_str()); }
+    auto mo       = [&](RModel::const_iterator it) { return static_cast<long>(std::distance(m.begin(), it)); };
+    int const nfn = o.has_equal_range ? NFN : F_ER1;
+    for (int i = 0; i < rec_universe; ++i) {
+        Rec const r   = rec_of(static_cast<std::uint32_t>(i));
+        auto const mf = m.find(r);
+        long const wf = mo(mf), wl = mo(m.lower_bound(r)), wu = mo(m.upper_bound(r)), wc = static_cast<long>(m.count(r));
+        long const want[NFN] = {wf, wf, wc, wc, wl, wl, wu, wu, wl, wu, wl, wu};
+        bool const eq_ne     = mf != m.end() && !(*mf == r); // equivalent to a stored key without being equal to it
+        for (int f = 0; f < nfn; ++f) {
+            if (!flat && eq_ne && f <= F_COUNT && ex.static_find_by_equality) {
+                vf::excluded_known("static_set.find_by_equality");
+                continue;
+            }
+            long const got = o.lk[i][f];
+            if (got == want[f]) { continue; }
+            if (f == F_CONTAINS) { return fmt("%s: contains(%s) is %s, std::set says %s", name, show_rec(r).c_str(), got != 0 ? "true" : "false", wc != 0 ? "true" : "false"); }
+            if (f == F_COUNT) { return fmt("%s: count(%s) is %ld, std::set says %ld", name, show_rec(r).c_str(), got, wc); }
+            return fmt("%s: %s(%s) gives offset %s, std::set gives %ld", name, fn_names[f], show_rec(r).c_str(), show_off(got).c_str(), want[f]);
+        }
+    }
+    for (int i = 0; i < ndepts; ++i) {
+        Dept const d{i - 1};
+        long const wl = mo(m.lower_bound(d)), wu = mo(m.upper_bound(d)), wc = wu - wl, end = static_cast<long>(m.size());
+        hetero_multi |= wc >= 2;
+        long const want[NFN] = {wl, wl, wc != 0 ? 1 : 0, wc, wl, wl, wu, wu, wl, wu, wl, wu};
+        for (int f = 0; f < nfn; ++f) {
+            long const got = o.dk[i][f];
+            if (f == F_FIND || f == F_FIND_C) { // any element of the equivalent run is a correct answer ([associative.reqmts]: "an element")
+                bool const ok = wc == 0 ? got == end : (got >= wl && got < wu);
+                if (!ok) { return fmt("%s: %s(Dept %d) gives offset %s, std::set's equivalent elements are [%ld,%ld) of %ld", name, fn_names[f], d.d, show_off(got).c_str(), wl, wu, end); }
+                continue;
+            }
+            if (f == F_COUNT && wc >= 2 && (flat ? ex.flat_hetero_count : ex.static_hetero_count)) {
+                vf::excluded_known(flat ? "flat_set.hetero_count" : "static_set.hetero_count");
+                if (got == 0) { return fmt("%s: count(Dept %d) is 0, std::set says %ld", name, d.d, wc); }
+                continue;
+            }
+            if (got == want[f]) { continue; }
+            if (f == F_CONTAINS) { return fmt("%s: contains(Dept %d) is %s, std::set says %s", name, d.d, got != 0 ? "true" : "false", wc != 0 ? "true" : "false"); }
+            if (f == F_COUNT) { return fmt("%s: count(Dept %d) is %ld, std::set says %ld", name, d.d, got, wc); }
+            return fmt("%s: %s(Dept %d) gives offset %s, std::set gives %ld", name, fn_names[f], d.d, show_off(got).c_str(), want[f]);
+        }
+    }
+    return "";
+}
+
+struct RFlags {
+    bool dup{false}, full_new{false}, erase_succ{false}, eq_ne_key{false}, hetero_multi{false}, alias{false}, reached_full{false};
+};
+auto rrecord(RFlags const& f, bool flat, int stats, OpsCase const& k) -> void
+{
+    if (stats > 1) {
+        vf::label(flat ? "flat_set<Rec>.hist.equivalent_but_not_equal_key" : "static_set<Rec>.hist.equivalent_but_not_equal_key", f.eq_ne_key);
+        vf::label(flat ? "flat_set<Rec>.hist.heterogeneous_lookup_matches_several" : "static_set<Rec>.hist.heterogeneous_lookup_matches_several", f.hetero_multi);
+        vf::label(flat ? "flat_set<Rec>.hist.argument_aliases_an_element" : "static_set<Rec>.hist.argument_aliases_an_element", f.alias);
+        vf::label(flat ? "flat_set<Rec>.hist.reached_full" : "static_set<Rec>.hist.reached_full", f.reached_full);
+    }
+    bool const nt = f.dup || f.full_new || f.erase_succ;
+    if (stats == 2 && nt) { vf::nontrivial(vf::digest(k)); }
+    if (stats == 1 && nt) { vf::nontrivial_count(); }
+}
+// judges a single-key insert and applies it to the model (std::set keeps the element that is already there)
+[[maybe_unused]] auto rjudge_insert(char const* what, RModel& m, Rec const& r, std::size_t cap, bool flat, bool inserted, long got, RFlags& fl) -> std::string
+{
+    auto const it      = m.find(r);
+    bool const present = it != m.end();
+    fl.dup |= present;
+    fl.eq_ne_key |= present && !(*it == r);
+    if (!flat && m.size() == cap && !present) {
+        fl.full_new = true;
+        if (inserted) { return fmt("%s of the new key %s into a full set reported inserted=true", what, show_rec(r).c_str()); }
+        return "";
+    }
+    auto [mit, mins] = m.insert(r);
+    long const want  = static_cast<long>(std::distance(m.begin(), mit));
+    if (inserted != mins) { return fmt("%s of key %s returned inserted=%s, std::set %s", what, show_rec(r).c_str(), inserted ? "true" : "false", mins ? "true" : "false"); }
+    if (got != want) { return fmt("%s of key %s (inserted=%s) returned iterator offset %s, std::set %ld", what, show_rec(r).c_str(), mins ? "true" : "false", show_off(got).c_str(), want); }
+    return "";
+}
+
+template <typename Set, std::size_t N, bool Flat>
+struct RecRunner {
+    static constexpr std::uint32_t ncodes = Flat ? R_NCODES_FLAT : R_NCODES_STATIC;
+
+    static auto compare(char const* name, Set& x, RModel const& m, bool& hetero_multi) -> std::string
+    {
+        Set const& cx = x;
+        RObs o;
+        o.size  = cx.size();
+        o.empty = cx.empty();
+        if constexpr (!Flat) { o.full = cx.full() ? 1 : 0; }
+        o.content_read = o.size <= N && static_cast<std::size_t>(cx.end() - cx.begin()) == o.size && static_cast<std::size_t>(x.end() - x.begin()) == o.size;
+        if (o.content_read) {
+            for (auto it = cx.begin(); it != cx.end(); ++it) { o.content.push_back(*it); }
+            auto const kc = cx.key_comp();
+            for (std::size_t i = 0; i + 1 < o.content.size(); ++i) {
+                if (!kc(o.content[i], o.content[i + 1]) || kc(o.content[i + 1], o.content[i])) { o.ascending = false; }
+            }
+            o.has_equal_range = Flat;
+            for (int i = 0; i < rec_universe; ++i) { look<Flat>(x, rec_of(static_cast<std::uint32_t>(i)), o.lk[i]); }
+            for (int i = 0; i < ndepts; ++i) { look<Flat>(x, Dept{i - 1}, o.dk[i]); }
+        }
+        return rjudge(name, o, m, N, Flat, hetero_multi);
+    }
+
+    static auto run(OpsCase const& k, int stats, std::size_t check_from) -> std::string
+    {
+        std::string err;
+        RFlags fl;
+        auto const ex          = rexclude();
+        std::size_t op_index   = 0;
+        g_adapter_overflow     = false;
+        vf::it::g_out_of_range = false;
+        Set x{};
+        RModel m;
+        for (auto const& op : k.ops) {
+            auto code = op.code % ncodes;
+            Rec r     = rec_of(op.a % static_cast<std::uint32_t>(rec_universe));
+            if (m.empty() && (code == R_ERASE_ITER || code == R_INSERT_ALIAS || code == R_ERASE_ALIAS)) { code = R_INSERT_CREF; }
+            bool const single_insert = code == R_INSERT_CREF || code == R_INSERT_RREF || code == R_EMPLACE || code == R_INSERT_HINT;
+            if (Flat && single_insert && m.size() == N && m.find(r) == m.end()) {
+                // never beyond the capacity of the backing container: ask for a key equivalent to a stored one instead (tag from the raw key)
+                Rec const e = *std::next(m.begin(), static_cast<std::ptrdiff_t>(op.a % N));
+                r           = Rec{e.dept, e.id, r.tag};
+            }
+            if (stats > 1) { vf::count((std::string("rec.op.") + rcode_names[code]).c_str()); }
+            switch (code) {
+            case R_INSERT_CREF: {
+                Rec const v = r;
+                auto res    = x.insert(v);
+                err         = rjudge_insert("insert(const&)", m, r, N, Flat, res.second, off(x.begin(), x.end(), res.first), fl);
+                break;
+            }
+            case R_INSERT_RREF: {
+                Rec v    = r;
+                auto res = x.insert(std::move(v));
+                err      = rjudge_insert("insert(&&)", m, r, N, Flat, res.second, off(x.begin(), x.end(), res.first), fl);
+                break;
+            }
+            case R_EMPLACE: {
+                auto res = x.emplace(r.dept, r.id, r.tag);
+                err      = rjudge_insert("emplace", m, r, N, Flat, res.second, off(x.begin(), x.end(), res.first), fl);
+                break;
+            }
+            case R_INSERT_HINT: {
+                if constexpr (Flat) {
+                    auto hp       = static_cast<std::ptrdiff_t>(op.b % (m.size() + 1));
+                    auto const mf = m.find(r);
+                    fl.dup |= mf != m.end();
+                    fl.eq_ne_key |= mf != m.end() && !(*mf == r);
+                    Rec const v     = r;
+                    auto it         = x.insert(x.cbegin() + hp, v);
+                    auto mit        = m.insert(std::next(m.begin(), hp), r);
+                    long const want = static_cast<long>(std::distance(m.begin(), mit));
+                    if (auto o = off(x.begin(), x.end(), it); o != want) { err = fmt("insert(hint,const&) of key %s returned iterator offset %s, std::set %ld", show_rec(r).c_str(), show_off(o).c_str(), want); }
+                }
+                break;
+            }
+            case R_ERASE_KEY: {
+                auto const mf = m.find(r);
+                bool eq_ne    = mf != m.end() && !(*mf == r);
+                if (Flat && eq_ne && ex.flat_erase_by_equality) { // open finding: only keys equal to the stored one are asked
+                    vf::excluded_known("flat_set.erase_by_equality");
+                    r     = *mf;
+                    eq_ne = false;
+                }
+                fl.eq_ne_key |= eq_ne;
+                fl.erase_succ |= mf == m.end() && m.upper_bound(r) != m.end();
+                auto n = x.erase(r);
+                auto e = m.erase(r);
+                if (static_cast<std::size_t>(n) != e) { err = fmt("erase(key %s) returned %zu, std::set %zu", show_rec(r).c_str(), static_cast<std::size_t>(n), e); }
+                break;
+            }
+            case R_ERASE_ITER: {
+                auto p  = static_cast<std::ptrdiff_t>(op.a % m.size());
+                auto it = x.erase(x.begin() + p);
+                m.erase(std::next(m.begin(), p));
+                if (auto o = off(x.begin(), x.end(), it); o != p) { err = fmt("erase(iterator at %td) returned iterator offset %s, expected %td", p, show_off(o).c_str(), p); }
+                break;
+            }
+            case R_INSERT_RANGE: {
+                // unsorted source with many duplicates and equivalent-but-not-equal keys; cut so that the set never needs more than N keys
+                std::size_t const len = op.b % 8U;
+                bool const ra         = ((op.b / 8U) % 2U) == 0;
+                Rec src[8];
+                std::size_t n = 0;
+                RModel u(m);
+                for (std::size_t i = 0; i < len; ++i) {
+                    Rec const q = rec_of((op.a + static_cast<std::uint32_t>(i % 3) * 7U + static_cast<std::uint32_t>(i / 3) * ((op.c >> 1) % 18U)) % 18U);
+                    auto uf     = u.find(q);
+                    if (uf == u.end() && u.size() == N) { break; }
+                    fl.dup |= uf != u.end();
+                    fl.eq_ne_key |= uf != u.end() && !(*uf == q);
+                    u.insert(q);
+                    src[n++] = q;
+                }
+                Rec const* f = src;
+                if (ra) {
+                    x.insert(f, f + n);
+                } else {
+                    using It = vf::it::In<Rec const>;
+                    x.insert(It(f, f, f + n), It(f + n, f, f + n));
+                }
+                m.insert(f, f + n);
+                break;
+            }
+            case R_CLEAR: {
+                x.clear();
+                m.clear();
+                break;
+            }
+            case R_INSERT_ALIAS: { // s.insert(*it): the argument lives inside the set
+                auto p   = static_cast<std::ptrdiff_t>(op.a % m.size());
+                auto res = x.insert(x.begin()[p]);
+                fl.alias = fl.dup = true;
+                if (res.second) {
+                    err = "insert(*it) reported inserted=true";
+                } else if (auto o = off(x.begin(), x.end(), res.first); o != p) {
+                    err = fmt("insert(*it) for the element at %td returned iterator offset %s", p, show_off(o).c_str());
+                }
+                break;
+            }
+            case R_ERASE_ALIAS: { // s.erase(*it): the argument is the element that is erased
+                auto p   = static_cast<std::ptrdiff_t>(op.a % m.size());
+                auto n   = x.erase(x.begin()[p]);
+                fl.alias = true;
+                m.erase(std::next(m.begin(), p));
+                if (n != 1) { err = fmt("erase(*it) for the element at %td returned %zu, std::set 1", p, static_cast<std::size_t>(n)); }
+                break;
+            }
+            default: break;
+            }
+            fl.reached_full |= m.size() == N;
+            if (err.empty() && op_index++ >= check_from) { err = compare("set", x, m, fl.hetero_multi); }
+            if (err.empty() && vf::it::g_out_of_range) { err = "an input iterator was advanced / dereferenced outside its range"; }
+            if (err.empty() && g_adapter_overflow) { err = "the backing container was asked to exceed its capacity although the set never needs more than N keys"; }
+            if (!err.empty()) {
+                err = std::string("after ") + rcode_names[code] + ": " + err;
+                break;
+            }
+        }
+        rrecord(fl, Flat, stats, k);
+        return err;
+    }
+};
+
 // ------------------------------------------------------------------ configuration table
 struct Config {
     char const* name;
     std::string (*run)(OpsCase const&, int, std::size_t);
     std::uint32_t ncodes;
-    int kind; // 0 static_set, 1 flat_set, 2 flat_multiset
+    int kind; // 0 static_set, 1 flat_set, 2 flat_multiset, 3 static_set / flat_set with the struct key Rec
     std::size_t cap;
 };
 
@@ -949,6 +1272,8 @@ using AVec = IVec<int, N>;
 #define SS(N, C) Config{"static_set<int," #N "," #C ">", &Runner<etl::static_set<int, N, C>, C, N, false>::run, NCODES_STATIC, 0, N}
 #define FS(N, C) Config{"flat_set<int,static_vector<int," #N ">," #C ">", &Runner<etl::flat_set<int, SVec<N>, C>, C, N, true>::run, NCODES_FLAT, 1, N}
 #define FA(N, C) Config{"flat_set<int,inplace_vector_adapter<int," #N ">," #C ">", &Runner<etl::flat_set<int, AVec<N>, C>, C, N, true>::run, NCODES_FLAT, 1, N}
+#define RS(N) Config{"static_set<Rec," #N ",RecLess>", &RecRunner<etl::static_set<Rec, N, RecLess>, N, false>::run, R_NCODES_STATIC, 3, N}
+#define RF(N) Config{"flat_set<Rec,static_vector<Rec," #N ">,RecLess>", &RecRunner<etl::flat_set<Rec, etl::static_vector<Rec, N>, RecLess>, N, true>::run, R_NCODES_FLAT, 3, N}
 #define MS(CONT, CNAME, C) Config{"flat_multiset<int," CNAME "," #C ">", &MultiRunner<CONT, C>::run, 1, 2, 4}
 
 using less_int     = etl::less<int>;
@@ -967,9 +1292,12 @@ Config const configs[] = {
     FS(1, less_void), FS(3, less_void), FS(4, less_void), FS(3, greater_void),
 #elif C09_PART == 4
     FA(3, less_int), FA(4, greater_int), FA(3, less_void),
+    // large capacities with a key universe of 20: random histories only (size-dependent search paths)
+    SS(8, less_int), SS(17, greater_int), FS(8, less_void), FS(17, less_int),
 #else
     FS(3, DirComp), FA(4, DirComp),
     MS(SVec<4>, "static_vector<int,4>", less_int), MS(SVec<4>, "static_vector<int,4>", greater_int), MS(SVec<4>, "static_vector<int,4>", less_void), MS(AVec<4>, "inplace_vector_adapter<int,4>", greater_void),
+    RS(3), RS(5), RF(3), RF(5),
 #endif
 };
 constexpr std::uint32_t nconfigs = sizeof(configs) / sizeof(configs[0]);
@@ -988,6 +1316,8 @@ auto describe(OpsCase const& k) -> std::string
     for (auto const& o : k.ops) {
         if (cfg.kind == 2) {
             s += " " + std::to_string(o.a % 6U);
+        } else if (cfg.kind == 3) {
+            s += " " + std::string(rcode_names[o.code % cfg.ncodes]) + "[" + show_rec(rec_of(o.a % 18U)) + "; " + std::to_string(o.a) + "," + std::to_string(o.b) + "," + std::to_string(o.c) + "]";
         } else {
             s += " " + std::string(code_names[o.code % cfg.ncodes]) + "[" + std::to_string(o.a) + "," + std::to_string(o.b) + "," + std::to_string(o.c) + "]";
         }
@@ -1013,7 +1343,7 @@ auto concrete_ops(Config const& cfg) -> std::vector<RawOp>
     std::vector<std::uint32_t> masks;
     for (std::uint32_t m = 0; m < 64; ++m) { masks.push_back(m); }
     std::vector<ArgSpace> sp{
-        {INSERT_CREF, keys, one, tgt}, {INSERT_RREF, keys, one, tgt}, {EMPLACE, keys, one, tgt}, {INSERT_RANGE, seqs, rlen, tgt_stride}, {ERASE_KEY, keys, one, tgt}, {ERASE_ITER, poss, one, tgt},
+        {INSERT_CREF, keys, tgt, tgt}, {INSERT_RREF, keys, one, tgt}, {EMPLACE, keys, tgt, tgt}, {INSERT_RANGE, seqs, rlen, tgt_stride}, {ERASE_KEY, keys, tgt, tgt}, {ERASE_ITER, poss, one, tgt},
         {ERASE_RANGE, poss, lens, tgt}, {CLEAR, one, one, tgt}, {SWAP_MEMBER, one, one, tgt}, {SWAP_FREE, one, one, tgt}, {COMPARE, one, one, tgt}, {COPY_CTOR_MUTATE, keys, one, tgt},
         {COPY_ASSIGN, one, one, tgt}, {MOVE_ASSIGN, one, one, tgt}, {MOVE_CTOR, one, one, tgt}, {SELF_COPY_ASSIGN, one, one, tgt}, {CTOR_RANGE, seqs, rlen, tgt_stride}, {OBSERVE, one, one, tgt},
     };
@@ -1060,7 +1390,7 @@ void enum_states_x_ops(vf::Ctx& c)
     std::uint64_t n = 0;
     for (std::uint32_t ci = 0; ci < nconfigs; ++ci) {
         auto const& cfg = configs[ci];
-        if (cfg.kind == 2) { continue; }
+        if (cfg.kind >= 2 || cfg.cap > 4) { continue; }
         auto const ops = concrete_ops(cfg);
         for (std::uint32_t mask = 0; mask < 64; ++mask) {
             if (static_cast<std::size_t>(__builtin_popcount(mask)) > cfg.cap) { continue; }
@@ -1101,7 +1431,7 @@ void enum_short_histories(vf::Ctx& c)
 {
     for (std::uint32_t ci = 0; ci < nconfigs; ++ci) {
         auto const& cfg = configs[ci];
-        if (cfg.kind == 2) { continue; }
+        if (cfg.kind >= 2 || cfg.cap > 4) { continue; }
         bool failed = false;
         auto go     = [&](std::vector<RawOp> const& alpha, int depth) {
             auto const& z = alpha[0];
@@ -1126,6 +1456,54 @@ void enum_short_histories(vf::Ctx& c)
             });
         };
         go(history_alphabet(cfg, c.thorough()), c.thorough() ? 5 : 4);
+    }
+}
+
+// struct-key sets: every history of depth 3 over insert / erase of every one of the 18 keys (so every equivalent-but-
+// not-equal pairing, and sets where one Dept matches 0, 1 and several elements) plus the other ops
+void enum_rec_histories(vf::Ctx& /*c: sharding is done by vf::enum_histories*/)
+{
+    for (std::uint32_t ci = 0; ci < nconfigs; ++ci) {
+        auto const& cfg = configs[ci];
+        if (cfg.kind != 3) { continue; }
+        std::vector<RawOp> alpha;
+        for (std::uint32_t a = 0; a < 18; ++a) {
+            alpha.push_back(RawOp{R_INSERT_CREF, a, 0, 0});
+            alpha.push_back(RawOp{R_ERASE_KEY, a, 0, 0});
+        }
+        for (std::uint32_t a : {4U, 13U, 8U}) { alpha.push_back(RawOp{R_EMPLACE, a, 0, 0}); }
+        alpha.push_back(RawOp{R_INSERT_RREF, 10, 0, 0});
+        alpha.push_back(RawOp{R_ERASE_ITER, 0, 0, 0});
+        alpha.push_back(RawOp{R_ERASE_ITER, 1, 0, 0});
+        alpha.push_back(RawOp{R_INSERT_RANGE, 0, 6, 2});
+        alpha.push_back(RawOp{R_INSERT_RANGE, 5, 13, 8});
+        alpha.push_back(RawOp{R_CLEAR, 0, 0, 0});
+        alpha.push_back(RawOp{R_INSERT_ALIAS, 0, 0, 0});
+        alpha.push_back(RawOp{R_INSERT_ALIAS, 1, 0, 0});
+        alpha.push_back(RawOp{R_ERASE_ALIAS, 0, 0, 0});
+        alpha.push_back(RawOp{R_ERASE_ALIAS, 1, 0, 0});
+        if (cfg.ncodes == R_NCODES_FLAT) {
+            alpha.push_back(RawOp{R_INSERT_HINT, 9, 0, 0});
+            alpha.push_back(RawOp{R_INSERT_HINT, 1, 2, 0});
+        }
+        bool failed   = false;
+        auto const& z = alpha[0];
+        vf::enum_histories(ci, alpha, 3, [&](OpsCase const& k) {
+            if (failed) { return; }
+            std::size_t tail = 0; // compare after op i only where everything behind i is alpha[0] (see enum_short_histories)
+            while (tail + 1 < k.ops.size()) {
+                auto const& o = k.ops[k.ops.size() - 1 - tail];
+                if (o.code != z.code || o.a != z.a || o.b != z.b || o.c != z.c) { break; }
+                ++tail;
+            }
+            vf::Flight<OpsCase> fl("enum_rec_histories", k);
+            vf::eval("enum_rec_histories");
+            auto d = run_case(k, 1, k.ops.size() - 1 - tail);
+            if (!d.empty()) {
+                failed = true;
+                vf::mismatch("enum_rec_histories", k, d);
+            }
+        });
     }
 }
 
@@ -1168,6 +1546,7 @@ extern "C" char const* __asan_default_options() { return "quarantine_size_mb=16:
 void vf_run(vf::Ctx& c)
 {
     enum_multisets(c);
+    enum_rec_histories(c);
     enum_states_x_ops(c);
     enum_short_histories(c);
     // E1: random histories of <= 30 ops, every configuration (each shard has its own seed)
@@ -1189,8 +1568,17 @@ void vf_run(vf::Ctx& c)
     }
 }
 
-std::string vf_replay(std::string const&, std::string const& cs)
+std::string vf_replay(std::string const& sub, std::string const& cs)
 {
+    // known-finding probes are replayed without --exclude; a probe whose case would first run into ANOTHER open
+    // finding names the tags to leave out in its sub: "<anything> excluding=tag1,tag2"
+    if (auto at = sub.find("excluding="); at != std::string::npos) {
+        std::stringstream ss(sub.substr(at + 10));
+        std::string t;
+        while (std::getline(ss, t, ',')) {
+            if (!t.empty()) { vf::ctx().exclude.insert(t); }
+        }
+    }
     auto k = vf::parse_ops(cs);
     vf::Flight<OpsCase> fl("replay", k);
     std::fprintf(stderr, "replaying: %s\n", describe(k).c_str());
